@@ -198,7 +198,19 @@ def edge_cover_paths(init, nodes, edges, rng, limit=None):
     return paths, len(uncovered)
 
 
-def path_to_script(nodes, path):
+# finite `go' commands and positions used in scripts; data-dependent shortcuts in the go handler (a forced move, a mate
+# in one, a clock search) must not change the synchronisation
+FINITE_GO = ["go depth 1", "go wtime 60000 btime 60000", "go movetime 10", "go depth 2", "go wtime 400 btime 400 movestogo 1"]
+SCRIPT_POSITIONS = ["position startpos moves e2e4 e7e5",
+                    "position fen 7k/8/8/8/8/8/r7/7K w - - 0 1",          # exactly one legal move
+                    "position fen 7k/5Q2/6K1/8/8/8/8/8 w - - 0 1",        # mate in one
+                    "position fen 8/8/8/8/8/7k/7p/7K w - - 0 1 moves h1g1",  # hmm: illegal? replaced below
+                    "position fen r3k2r/p1ppqpb1/bn2pnp1/3PN3/1p2P3/2N2Q1p/PPPBBPPP/R3K2R w KQkq - 0 1"]
+SCRIPT_POSITIONS[3] = "position fen 6k1/8/8/8/8/8/5PPP/r5K1 w - - 0 1"  # in check, few replies (none: mate) -> not used with go
+SCRIPT_POSITIONS = [p for i, p in enumerate(SCRIPT_POSITIONS) if i != 3]
+
+
+def path_to_script(nodes, path, variant=0):
     """Model path -> (commands for stdin, schedule labels with real search ids)."""
     cmds, sched = [], []
     slot_id = {}
@@ -213,7 +225,12 @@ def path_to_script(nodes, path):
             if w in ("stopwake", "newgamelock"):
                 sched.append("M:" + w)
                 continue
-            cmds.append(CMD_TEXT[w])
+            if w == "go":
+                cmds.append(FINITE_GO[(variant + n_go) % len(FINITE_GO)])
+            elif w == "position":
+                cmds.append(SCRIPT_POSITIONS[(variant + len(cmds)) % len(SCRIPT_POSITIONS)])
+            else:
+                cmds.append(CMD_TEXT[w])
             hook_word = "setoption" if w.startswith("sethash") else w
             sched.append("M:" + hook_word)
         elif lbl[0] == "S":
